@@ -103,9 +103,6 @@ func runC04(t *testing.T, tp *simrt.Tape, keepTrace bool) hx.Result {
 					break outer
 				}
 				got := c.files()
-				if hasBranchesRepos(c.Q) {
-					got, want = stripBranches(got), stripBranches(want)
-				}
 				if d := diffSets(normFiles(got, true), normFiles(want, true)); d != "" {
 					viol = &hx.Violation{Sig: "answer-differs-from-fresh-searcher|" + mode, Detail: where + ": " + d}
 					break outer
